@@ -730,7 +730,10 @@ func (lh *levelHandler) searchL0SST(key []byte) (*kv.Entry, error) {
 		version uint64
 		best    *kv.Entry
 	)
-	for _, table := range lh.tables {
+	// L0 tables are ordered oldest to newest; walk them newest first so that, when
+	// several tables hold the same internal key (same version), the newest copy wins.
+	for i := len(lh.tables) - 1; i >= 0; i-- {
+		table := lh.tables[i]
 		if table == nil {
 			continue
 		}
